@@ -1623,6 +1623,8 @@ impl MetadataClient for ObjectStoreMetadataClient {
             let (mut leases, etag) = self.load_leases_with_etag().await?;
 
             let now = chrono::Utc::now();
+            #[cfg(feature = "verif_hooks")]
+            let now = now + crate::verif_hooks::clock_offset();
 
             // Scavenge expired active leases
             leases.leases.retain(|_, lease| {
@@ -1754,6 +1756,8 @@ impl MetadataClient for ObjectStoreMetadataClient {
             match self.atomic_save_leases(&leases, etag).await {
                 Ok(_) => {
                     let now = chrono::Utc::now();
+                    #[cfg(feature = "verif_hooks")]
+                    let now = now + crate::verif_hooks::clock_offset();
                     let active_leases = leases
                         .leases
                         .values()
@@ -1834,6 +1838,8 @@ impl MetadataClient for ObjectStoreMetadataClient {
             match self.atomic_save_leases(&leases, etag).await {
                 Ok(_) => {
                     let now = chrono::Utc::now();
+                    #[cfg(feature = "verif_hooks")]
+                    let now = now + crate::verif_hooks::clock_offset();
                     let active_leases = leases
                         .leases
                         .values()
@@ -1915,6 +1921,10 @@ impl MetadataClient for ObjectStoreMetadataClient {
                 }
                 lease.expires_at =
                     chrono::Utc::now() + chrono::Duration::from_std(extension).unwrap();
+                #[cfg(feature = "verif_hooks")]
+                {
+                    lease.expires_at = lease.expires_at + crate::verif_hooks::clock_offset();
+                }
             } else {
                 counter!(
                     "cardinalsin_metadata_lease_operations_total",
@@ -1931,6 +1941,8 @@ impl MetadataClient for ObjectStoreMetadataClient {
             match self.atomic_save_leases(&leases, etag).await {
                 Ok(_) => {
                     let now = chrono::Utc::now();
+                    #[cfg(feature = "verif_hooks")]
+                    let now = now + crate::verif_hooks::clock_offset();
                     let active_leases = leases
                         .leases
                         .values()
@@ -1995,6 +2007,8 @@ impl MetadataClient for ObjectStoreMetadataClient {
             let (mut leases, etag) = self.load_leases_with_etag().await?;
             let original_count = leases.leases.len();
             let now = chrono::Utc::now();
+            #[cfg(feature = "verif_hooks")]
+            let now = now + crate::verif_hooks::clock_offset();
 
             // Remove expired active leases and terminal (Completed/Failed) leases
             leases.leases.retain(|_, lease| {
